@@ -4,6 +4,7 @@ import PaletteModel.LutDriver
 import PaletteModel.TransferDriver
 import PaletteModel.ClampDriver
 import PaletteModel.ConvDriver
+import PaletteModel.SoaDriver
 
 open Proto
 
@@ -11,6 +12,8 @@ def dispatch (op : String) (cfg inp outp : List String) : Verdict :=
   match op with
   | "stim" => Stim.handle cfg inp outp
   | "clamp" | "clamphwb" => Clamp.handle op cfg inp outp
+  | "soa" => Soa.handle cfg inp outp
+  | "soatypes" => Soa.handleTypes inp
   | "conv" => Conv.handle cfg inp outp
   | "curve" => Transfer.handle cfg inp outp
   | "lutenc" | "lutdec" | "lutenc16" | "lutdec16" => Lut.handle op cfg inp outp
